@@ -466,6 +466,33 @@ func (e *Exec) unary(v *ast.UnaryExpr, c *Ctx) Term {
 		if cl, ok := v.X.(*ast.CompositeLit); ok {
 			return e.compositeLit(cl, c, true)
 		}
+		// address of a local struct variable: the variable is moved to a fresh heap object (it escapes)
+		if id, ok := unparen(v.X).(*ast.Ident); ok && !c.spec {
+			val := e.eval(id, c)
+			if val.T.K == KStruct {
+				r := e.alloc(c.st, shortStructName(val.T.Name))
+				for _, f := range e.fieldsOf(val.T) {
+					h := e.heapArr(c.st, val.T.Name, f)
+					e.set(c.st, heapKey(val.T.Name, f.Name), Term{fmt.Sprintf("(store %s %s (%s!%s %s))", h.S, r, e.Sort(val.T), f.Name, val.S), h.T})
+				}
+				e.note("address of local struct %s: moved to a fresh heap object (later uses of the local by value are not linked)", id.Name)
+				return Term{r, &Type{K: KRef, Name: val.T.Name, St: val.T.St, Subst: val.T.Subst, G: ptrTo(val.T.G)}}
+			}
+		}
+		// address of a local (non-struct) variable: one opaque pointer per variable
+		if id, ok := unparen(v.X).(*ast.Ident); ok && !c.spec {
+			if obj := c.fr.info.Uses[id]; obj != nil {
+				k := "&addr!" + e.keyOf(obj)
+				t := e.prog.TypeOf(c.fr.info.Types[v].Type, c.fr.subst)
+				if cur, ok := c.st.vars[k]; ok {
+					return cur
+				}
+				r := Term{e.vc.FreshConst("addr_"+id.Name, "Int"), t}
+				e.assume(c.st, fmt.Sprintf("(> %s 0)", r.S))
+				c.st.vars[k] = r
+				return r
+			}
+		}
 		// address of a field or variable: not modelled
 		if !c.spec {
 			t := e.prog.TypeOf(c.fr.info.Types[v].Type, c.fr.subst)
